@@ -1316,7 +1316,12 @@ impl Value {
         let slice = PaddedSliceRead::new(buffer.as_mut_slice());
         let mut parser = Parser::new(slice).with_config(cfg);
         let mut vis = DocumentVisitor::new(json.len(), smut);
-        parser.parse_dom(&mut vis)?;
+        if let Err(err) = parser.parse_dom(&mut vis) {
+            // the strings are unescaped in place in the padded copy, so the line and column of
+            // the error are located in the origin json
+            let index = err.offset();
+            return Err(err.relocate(json, index));
+        }
         let idx = parser.read.index();
         // the document must end inside the input, not in the padding (an unterminated string
         // is closed by the `x"x` sentinel)
